@@ -1,9 +1,190 @@
 (* C12 property theorems: ONLY statements closed by `exact`, each followed by Print Assumptions. *)
 From Coq Require Import List Ascii ZArith NArith Bool.
-From DuneV Require Import C12_Model C12_Spec C12_Proofs.
+From DuneV Require Import C12_Model C12_Spec C12_Proofs C12_Proofs_Int C12_Proofs_Tree C12_Proofs_Lex C12_Proofs_Frame C12_Proofs_Opt.
 Import ListNotations.
+Local Open Scope char_scope.
 
 (* readINITree never loops: for all input bytes, trees and overwrite modes (fuel = #lines + 1) *)
 Theorem C12_total : forall doc pt ow, c12_ir_status (c12_parse_ini doc pt ow) <> C12OutOfFuel.
 Proof. exact c12_total. Qed.
 Print Assumptions C12_total.
+
+(* get<int>/get<long>: converts exactly  blank* [+-]? digit+ blank*  denoting a representable value,
+   to that value; everything else (garbage, trailing text, overflow) is a RangeError *)
+Theorem C12_int_exact : forall lo hi s,
+  c12_parse_scalar (c12_extract_int true lo hi) s = c12_spec_int lo hi s.
+Proof. exact c12_int_exact. Qed.
+Print Assumptions C12_int_exact.
+Example C12_int_exact_nonvacuous :
+  c12_parse_scalar (c12_ity_extract C12Int) [" "; "-"; "4"; "2"; " "] = Some (-42)%Z /\
+  c12_parse_scalar (c12_ity_extract C12Int) ["4"; "2"; "x"] = None /\
+  c12_parse_scalar (c12_ity_extract C12Int) ["2";"1";"4";"7";"4";"8";"3";"6";"4";"8"] = None.
+Proof. vm_compute. repeat split; reflexivity. Qed.
+
+Theorem C12_bool_exact : forall s, c12_parse_bool s = c12_spec_bool s.
+Proof. exact c12_bool_exact. Qed.
+Print Assumptions C12_bool_exact.
+
+Theorem C12_vector_exact : forall lo hi s,
+  c12_parse_vector (c12_extract_int true lo hi) s = c12_all_some (c12_spec_int lo hi) (c12_spec_tokens_ws s).
+Proof. exact c12_vector_exact_tokens. Qed.
+Print Assumptions C12_vector_exact.
+
+Theorem C12_bitset_exact : forall n s,
+  c12_parse_bitset n s =
+  (if Nat.eqb (length (c12_split s)) n then c12_all_some c12_spec_bool (c12_split s) else None).
+Proof. exact c12_bitset_exact. Qed.
+Print Assumptions C12_bitset_exact.
+
+(* fixed-size ranges with the repaired surplus probe (fixes/C12-1.patch): exactly n items *)
+Theorem C12_range_exact : forall lo hi n s vs,
+  c12_parse_range true (c12_extract_int true lo hi) n s = Some vs <-> c12_spec_range_rel lo hi n s vs.
+Proof. exact c12_range_exact_fixed. Qed.
+Print Assumptions C12_range_exact.
+Example C12_range_exact_nonvacuous :
+  c12_parse_range true (c12_ity_extract C12Int) 3 ["1"; " "; "-"; "2"; " "; " "; "3"; " "] = Some [1; -2; 3]%Z.
+Proof. vm_compute. reflexivity. Qed.
+
+(* ... and the code as it stands is refuted: "1 2 3 -" is accepted as {1,2,3}  (F-C12-1) *)
+Theorem C12_range_exact_refuted :
+  exists s vs, c12_parse_range false (c12_ity_extract C12Int) 3 s = Some vs /\
+               ~ c12_spec_range_rel (- 2 ^ 31) (2 ^ 31 - 1) 3 s vs.
+Proof. exact c12_range_exact_asis_refuted. Qed.
+Print Assumptions C12_range_exact_refuted.
+
+(* what survives for the present code: the accepted text starts with n well-formed items *)
+Theorem C12_range_items_partial : forall lo hi n s vs,
+  c12_parse_range false (c12_extract_int true lo hi) n s = Some vs ->
+  exists rest, c12_items_then lo hi n s vs rest.
+Proof. exact c12_range_asis_items. Qed.
+Print Assumptions C12_range_items_partial.
+
+(* ---------------------------------------------------------------- the tree *)
+
+(* get(key, default): the default exactly when the key is absent; a present key is converted (or the
+   conversion error raised), never replaced by the default *)
+Theorem C12_default : forall (T : Type) (parse : c12_str -> option T) t p d,
+  (c12_has_key t p = Some false -> c12_get_or parse t p d = Some d) /\
+  (c12_has_key t p = Some true ->
+     exists v, c12_lookup t p = Some v /\ c12_get_or parse t p d = parse v) /\
+  (c12_has_key t p = None -> c12_get_or parse t p d = None).
+Proof. exact c12_default. Qed.
+Print Assumptions C12_default.
+
+(* hasKey holds exactly when the const operator[] finds a value *)
+Theorem C12_has_key_lookup : forall p t,
+  c12_has_key t p = Some true <-> exists v, c12_lookup t p = Some v.
+Proof. exact c12_has_key_lookup. Qed.
+Print Assumptions C12_has_key_lookup.
+
+(* frame: pt[p] = ... changes no observation (operator[], hasKey, hasSub) at any path unrelated to p *)
+Theorem C12_frame : forall p q t f,
+  c12_unrel p q = true -> c12_obs (fst (c12_upd t p f)) q = c12_obs t q.
+Proof. exact c12_upd_frame. Qed.
+Print Assumptions C12_frame.
+
+(* ---------------------------------------------------------------- readINITree *)
+
+(* C12_roundtrip: for every document of the documented dialect -- any layout of blanks, comment lines,
+   trailing comments, [group] headers vs dotted keys, plain / quoted / multi-line quoted values -- every
+   pre-existing tree and both overwrite modes, the line machine does exactly "store the written
+   (full key, value) list in order"; groups and dotted keys denote the same full keys (c12_sdoc_assigns).
+   Dialect restrictions (c12_sline_ok): keys non-empty, tight, without = # and not starting with [ ;
+   header names without ] ; plain values tight, without #, not starting with a quote; quoted values:
+   no # on their first line, and no line break directly after (quote, blanks) inside the value.
+   Stated on line lists and on the bytes of the document. *)
+Theorem C12_roundtrip : forall ls pt ow,
+  forallb c12_sline_ok ls = true ->
+  c12_ts (c12_parse_ini_lines (flat_map c12_render_sline ls) pt ow) = c12_store_all (c12_sdoc_assigns ls []) pt [] ow.
+Proof. exact c12_roundtrip. Qed.
+Print Assumptions C12_roundtrip.
+Theorem C12_roundtrip_bytes : forall ls pt ow,
+  forallb c12_sline_ok ls = true ->
+  forallb (c12_nochar "010") (flat_map c12_render_sline ls) = true ->
+  c12_ts (c12_parse_ini (c12_join_lines (flat_map c12_render_sline ls)) pt ow) =
+  c12_store_all (c12_sdoc_assigns ls []) pt [] ow.
+Proof. exact c12_roundtrip_bytes. Qed.
+Print Assumptions C12_roundtrip_bytes.
+Example C12_roundtrip_nonvacuous :
+  let ls := [C12SComment [" "] ["c"]; C12SHeader [] [" "] ["g"] [] [" "; "#"];
+             C12SAssign ["009"] ["a"; "."; "b"] [" "] [] ["1"; " "; "2"] [" "] ["#"; "x"]; C12SBlank [];
+             C12SQuoted1 [] ["q"] [] [" "] "'" [" "; "x"; " "] [" "] ["#"];
+             C12SQuotedN [] ["m"] [] [] """" ["u"] [["#"; "v"]] ["w"] [" "]] in
+  forallb c12_sline_ok ls = true /\
+  forallb (c12_nochar "010") (flat_map c12_render_sline ls) = true /\
+  c12_sdoc_assigns ls [] = [(["g"; "."; "a"; "."; "b"], ["1"; " "; "2"]); (["g"; "."; "q"], [" "; "x"; " "]);
+                            (["g"; "."; "m"], ["u"; "010"; "#"; "v"; "010"; "w"])] /\
+  c12_lookup (c12_ir_tree (c12_parse_ini (c12_join_lines (flat_map c12_render_sline ls)) c12_empty true)) [["g"]; ["m"]]
+    = Some ["u"; "010"; "#"; "v"; "010"; "w"].
+Proof. vm_compute. repeat split; reflexivity. Qed.
+
+(* C12_values: storing a hierarchy (pairwise unrelated paths) whose keys are fresh succeeds; afterwards every
+   key maps to exactly its written value, and every observation unrelated to the written keys -- in
+   particular every pre-existing entry -- is as before.  Both overwrite modes.
+   (Key ORDER -- getValueKeys/getSubKeys in order of first appearance -- is not part of this theorem:
+   checked by the correspondence against c12_spec_value_keys/c12_spec_sub_keys only.) *)
+Theorem C12_values : forall kvs t seen ow,
+  c12_hierarchy (map (fun kv => c12_path (fst kv)) kvs) = true ->
+  c12_keys_free kvs t seen ->
+  exists t', c12_store_all kvs t seen ow = (t', C12Ok) /\
+             (forall k v, In (k, v) kvs -> c12_lookup t' (c12_path k) = Some v) /\
+             (forall q, (forall k v, In (k, v) kvs -> c12_unrel (c12_path k) q = true) -> c12_obs t' q = c12_obs t q).
+Proof. exact c12_values. Qed.
+Print Assumptions C12_values.
+Theorem C12_values_from_empty : forall kvs, c12_keys_free kvs c12_empty [].
+Proof. exact c12_keys_free_empty. Qed.
+Print Assumptions C12_values_from_empty.
+
+(* C12_duplicate: a key assigned twice in one source is rejected -- whatever the spelling (the full keys are
+   equal), the tree, the overwrite mode, and whatever lies before, between and after *)
+Theorem C12_duplicate : forall l1 k v1 l2 v2 l3 pt seen ow,
+  snd (c12_store_all (l1 ++ (k, v1) :: l2 ++ (k, v2) :: l3) pt seen ow) <> C12Ok.
+Proof. exact c12_duplicate. Qed.
+Print Assumptions C12_duplicate.
+Theorem C12_duplicate_is_parser_error : forall pt seen ow k v,
+  existsb (c12_eqs k) seen = true -> snd (c12_store_all [(k, v)] pt seen ow) = C12ParserError.
+Proof. exact c12_duplicate_status. Qed.
+Print Assumptions C12_duplicate_is_parser_error.
+
+(* C12_overwrite: overwrite = false keeps a present key untouched; otherwise the key maps to the written value *)
+Theorem C12_overwrite : forall pt seen k v,
+  existsb (c12_eqs k) seen = false ->
+  (c12_has_key pt (c12_path k) = Some true -> c12_store pt seen false k v = inl (pt, k :: seen)) /\
+  (forall ow, (ow = true \/ c12_has_key pt (c12_path k) = Some false) ->
+     c12_has_sub pt (c12_path k) = Some false ->
+     forall pt' seen', c12_store pt seen ow k v = inl (pt', seen') ->
+     c12_lookup pt' (c12_path k) = Some v).
+Proof. exact c12_overwrite. Qed.
+Print Assumptions C12_overwrite.
+
+(* ---------------------------------------------------------------- command line *)
+
+(* readOptions maps  -k1 v1 -k2 v2 ...  to the assignments k_i := v_i, and reports a last option without value *)
+Theorem C12_options_pairs : forall kvs pt,
+  forallb (fun kv : c12_str * c12_str => negb (c12_is_nil (fst kv))) kvs = true ->
+  c12_read_options (c12_render_options kvs) pt = c12_set_all kvs pt.
+Proof. exact c12_options_pairs. Qed.
+Print Assumptions C12_options_pairs.
+Theorem C12_options_dangling : forall kvs k pt,
+  forallb (fun kv : c12_str * c12_str => negb (c12_is_nil (fst kv))) kvs = true -> k <> [] ->
+  c12_read_options (c12_render_options kvs ++ [("-" :: k)%char]) pt =
+  (fst (c12_set_all kvs pt), match snd (c12_set_all kvs pt) with C12Ok => C12RangeError | st => st end).
+Proof. exact c12_options_dangling. Qed.
+Print Assumptions C12_options_dangling.
+
+(* readNamedOptions, positional part (overwrite allowed): arguments that are neither --name=value nor a help
+   request go to the keywords in order; more arguments than keywords: "superfluous"; fewer than the required
+   number: "missing".  The named part (--name=value, unknown / already specified) is covered by the
+   correspondence (spec oracle c12_spec_named_only) only. *)
+Theorem C12_options_positional_partial : forall args kw required am pt,
+  forallb c12_plain_arg args = true ->
+  c12_read_named_options args pt kw required am true = c12_spec_named_positional args kw required pt.
+Proof. exact c12_named_positional. Qed.
+Print Assumptions C12_options_positional_partial.
+
+(* ---------------------------------------------------------------- F-C12-2 *)
+(* "for all documents the line machine never evaluates *(rtrim(value).rbegin()) on an empty string" is refuted *)
+Theorem C12_no_undefined_read_refuted :
+  exists doc, c12_ir_ub (c12_parse_ini doc c12_empty true) = true.
+Proof. exact c12_undefined_read_reachable. Qed.
+Print Assumptions C12_no_undefined_read_refuted.
